@@ -6,12 +6,15 @@
      - every byte of every data/expr item, zeros for bss (the allocator fills fresh blocks with 0xA5),
      - ref items hold Addr(target) + disp where Addr(item j) is taken from the model's layout
        (address of the head of j's section + offset of j), Addr(import/function) from item->addr,
-     - lref items hold A(l1) + disp, or A(l1) - A(l2) + disp, where A(l) is what `laddr` of the label gives
-       inside the function of the labels (the function stores laddr L1..L3 into a buffer when it is run:
-       interpreted once / generated).  The harness adds no lref item of its own, so whether the lrefs of a
-       module get filled depends on the sequence alone.
+     - lref items hold A(l1) + disp, or A(l1) - A(l2) + disp, where A(l) is what a one-label reference to l
+       added by the harness holds once the function of the labels has been prepared (interpreted once /
+       generated).  These references la1..la3 are ANONYMOUS members of a section headed by a byte item
+       (`lah: u8 0`, after the sequence), so they do not influence whether the module's lrefs get linked.
+       Under the engines where a label has one address (interp, gen, lazy gen; lazy bb gen has one per
+       block version) A(l) must also be what `laddr` gives inside the function (it stores laddr L1..L3
+       into a buffer when run).
    Form 1 (text): the module under test arrives as MIR text and is read by MIR_scan_string; the sequence
-   items are the last <nitems> items of the scanned module.
+   items are the <nitems> items before the 4 epilogue items (lah, la1..la3) of the scanned module.
    Runs under ASan: writes outside the requested block are reported by the sanitizer.
 
    Input (stdin): C <case> <engine> <nitems> <form> (engine 0 interp, 1 gen, 2 lazy gen, 3 lazy bb gen), then per item
@@ -85,6 +88,7 @@ static void MIR_NO_RETURN trap (MIR_error_type_t t, const char *fmt, ...) {
 
 /* ---------------- one case ---------------------------------------------------------------------------- */
 #define MAXI 8
+#define NEPI 4 /* epilogue items: lah, la1, la2, la3 */
 #define MAXB 300
 typedef struct {
   int kind, named, type, n, disp, l1, l2, sec, off, len, secsize, tkind, tidx, edisp, nbytes;
@@ -149,7 +153,7 @@ static MIR_item_t expr_func (MIR_context_t ctx, int type, const unsigned char *b
 static void run_case (void) {
   MIR_context_t ctx = MIR_init2 (&r_alloc, NULL);
   MIR_module_t m0, m;
-  MIR_item_t modd, imp_ext, imp_mod, lf, fw[MAXI + 2], efunc[12];
+  MIR_item_t modd, imp_ext, imp_mod, lf, fw[MAXI + 2], efunc[12], la[4] = {NULL, NULL, NULL, NULL};
   MIR_label_t L[4];
   MIR_type_t i64 = MIR_T_I64;
   MIR_reg_t a, out, r, t;
@@ -185,9 +189,12 @@ static void run_case (void) {
       total++;
       if (item->item_type == MIR_func_item && strcmp (item->u.func->name, "lf") == 0) lf = item;
     }
-    for (item = DLIST_HEAD (MIR_item_t, m->items); item != NULL; item = DLIST_NEXT (MIR_item_t, item))
-      if (++k > total - nitems) it[k - (total - nitems)].item = item;
-    if (lf == NULL || total < nitems) { trap_armed = 0; FAIL (0, "machinery", "scanned module has %d items, no lf", total); return; }
+    for (item = DLIST_HEAD (MIR_item_t, m->items); item != NULL; item = DLIST_NEXT (MIR_item_t, item)) {
+      k++;
+      if (k > total - nitems - NEPI && k <= total - NEPI) it[k - (total - nitems - NEPI)].item = item;
+      else if (k > total - NEPI + 1) la[k - (total - NEPI + 1)] = item;
+    }
+    if (lf == NULL || total < nitems + NEPI) { trap_armed = 0; FAIL (0, "machinery", "scanned module has %d items, no lf", total); return; }
   } else {
   m = MIR_new_module (ctx, "m");
   imp_ext = MIR_new_import (ctx, "ext1");
@@ -237,6 +244,8 @@ static void run_case (void) {
     default: x->item = MIR_new_proto (ctx, nmp, 0, NULL, 0); break;
     }
   }
+  { unsigned char z = 0; MIR_new_data (ctx, "lah", MIR_T_U8, 1, &z); }
+  for (int i = 1; i <= 3; i++) la[i] = MIR_new_lref_data (ctx, NULL, L[i], NULL, 0);
   MIR_finish_module (ctx);
   }
   phase = 3;
@@ -308,11 +317,13 @@ static void run_case (void) {
     case 3: {
       int64_t got, A1, A2 = 0, want;
       memcpy (&got, p, 8);
-      A1 = AL[x->l1 - 1];
-      if (x->l2) A2 = AL[x->l2 - 1];
+      memcpy (&A1, la[x->l1]->addr, 8);
+      if (x->l2) memcpy (&A2, la[x->l2]->addr, 8);
       want = A1 - A2 + x->edisp;
       if (got == (int64_t) 0xA5A5A5A5A5A5A5A5ull) /* still the allocator's fill pattern: nothing ever wrote the item */
         FAIL (i, "lref_not_filled", "lref item %d (L%d, L%d, disp %d) was never filled after its function had been prepared [%s]", i, x->l1, x->l2, x->disp, seq);
+      else if (engine != 3 && A1 != AL[x->l1 - 1])
+        FAIL (i, "lref_vs_laddr", "one-label lref of L%d holds %ld but laddr L%d gives %ld [%s]", x->l1, (long) A1, x->l1, (long) AL[x->l1 - 1], seq);
       else if (got != want)
         FAIL (i, x->l2 ? "lref_diff" : "lref_addr", "lref item %d (L%d, L%d, disp %d) holds %ld, but A(L%d)%s%+d = %ld with A(L%d) = %ld [%s]", i, x->l1,
               x->l2, x->disp, (long) got, x->l1, x->l2 ? " - A(l2)" : "", x->disp, (long) want, x->l1, (long) A1, seq);
